@@ -542,6 +542,21 @@ theorem renderToks_marker_iff (ts : List Token) (h : ListOK ts) :
     hasIEMarker (renderToks ts) = ts.any (fun t => hasIEMarker (renderTok t)) :=
   hasIEMarker_renderToks ts h
 
+/-- one well-formed token: its rendering contains the marker iff the token-level test `tokIE` says so — a comment
+    whose body starts with ws* `[` ws* `if`; an attribute value, declaration body or processing instruction
+    that contains the marker; never a tag name, an end tag, text or a reference -/
+theorem token_marker_iff (t : Token) (h : TokOK t) : hasIEMarker (renderTok t) = tokIE t :=
+  tokIE_render t h
+
+/-- **C02g (serialiser output, on tokens).** The rendering of a token list in the serialiser's image contains
+    the marker iff one of its tokens tests positive. -/
+theorem renderToks_marker_iff_tokens (ts : List Token) (h : ListOK ts) :
+    hasIEMarker (renderToks ts) = ts.any tokIE :=
+  hasIEMarker_renderToks_tok ts h
+
+/-- `TokNoIE` is the negative test spelled out -/
+theorem tokNoIE_reading (t : Token) : TokNoIE t ↔ tokIE t = false := tokNoIE_iff t
+
 /-- **C02g (serialiser output).** The condition on tokens (`TokNoIE`): no comment's body starts with
     ws* `[` ws* `if`; no attribute value, declaration body or processing instruction contains the marker
     (tags, end tags, text and references never do).  Then the rendering has no marker. -/
